@@ -1,5 +1,6 @@
 import LokiModel.Sexp
 import LokiModel.C23.Model
+import LokiModel.Generated.C23Tables
 open LokiModel.C21 LokiModel.C23 Sexp
 
 def field? (name : String) : List Sexp → Option (List Sexp)
@@ -140,8 +141,10 @@ def step : Sexp → Option Sexp
   | list [atom "item", a, b] => do
       let a ← nm? a
       let b ← nm? b
-      pure (list [atom "ok", ofBool (itemEq a b), ofBool (decide (encodeHash a = encodeHash b)),
-        ofNat (pySet encodeHash [a, b]).length, ofBool (pyMem encodeHash [b] a), ofBool (listMem [b] a)])
+      -- `Item.__hash__` as the code in /repo has it (table re-read on every run)
+      let h := itemHash Generated.hashFoldsName encodeHash
+      pure (list [atom "ok", ofBool (itemEq a b), ofBool (decide (h a = h b)),
+        ofNat (pySet h [a, b]).length, ofBool (pyMem h [b] a), ofBool (listMem [b] a)])
   | _ => none
 
 def main : IO Unit := driverMain step
